@@ -53,6 +53,7 @@ class Interp:
         self.on_call = on_call  # on_call(fn, node, callee) -> value or raise OutOfFragment
         self.depth = 0
         self.const_override = None  # {qualified name: value}
+        self.max_loop = 10000  # iterations of one loop statement (a harness that feeds large inputs raises it)
         self.on_range = None  # on_range(interp, value) -> list: how a range-for visits a modelled container
 
     def set_order(self, o):
@@ -208,6 +209,8 @@ class Interp:
                 return set()
             if len(vals) == 1 and not any(x in t for x in ('vector', 'initializer_list', 'array', '[', 'set', 'map')):
                 return vals[0]
+            if len(vals) == 1 and isinstance(vals[0], list) and t.replace('const ', '').strip().startswith('std::array<'):
+                return vals[0]                    # std::array is an aggregate around a built-in array: { {a, b, c} }
             return vals
         if k == 'CXXDefaultArgExpr' or k == 'CXXDefaultInitExpr':
             if 'cv' in n:
@@ -1144,7 +1147,7 @@ class Interp:
                 if 'inc' in n:
                     self.eval(fn, S[n['inc']], env)
                 it += 1
-                if it > 10000:
+                if it > self.max_loop:
                     raise OutOfFragment('loop bound')
             return
         if k == 'WhileStmt':
@@ -1157,7 +1160,7 @@ class Interp:
                 except _Continue:
                     pass
                 it += 1
-                if it > 10000:
+                if it > self.max_loop:
                     raise OutOfFragment('loop bound')
             return
         if k == 'DoStmt':
@@ -1172,7 +1175,7 @@ class Interp:
                 if not self.eval(fn, S[n['cond']], env):
                     break
                 it += 1
-                if it > 10000:
+                if it > self.max_loop:
                     raise OutOfFragment('loop bound')
             return
         if k == 'CXXForRangeStmt':
